@@ -30,6 +30,10 @@ type StaleLoad struct {
 	StaleVals []int `json:"stale_vals,omitempty"` // Str2Str: values of the first len(StaleVals) fresh keys
 	// HugeVal (Str2Str only): a failing load - the value of the last key is longer than MaxUint32 (never touched)
 	HugeVal bool `json:"huge_val,omitempty"`
+	// Dup: the first key is passed twice (outside the property's domain of distinct keys): IF the library rejects
+	// such a load, the rejection must not have changed anything; if it accepts it, nothing is asserted until the
+	// next load
+	Dup bool `json:"dup,omitempty"`
 }
 
 type StaleCase struct {
@@ -56,7 +60,7 @@ func checkStaleBody(c StaleCase, cv *cov) *evid.Violation {
 	var handed []string // views handed out by any load so far
 	modelS := map[string]string{}
 	modelI := map[string]int{}
-	usedStale, usedOld, sawHuge := false, false, false
+	usedStale, usedOld, sawHuge, sawDupRejected, unknown := false, false, false, false, false
 	handedAt := []int{} // load index at which handed[i] was obtained
 	verify := func(when string) *evid.Violation {
 		if c.Str2Str {
@@ -88,6 +92,13 @@ func checkStaleBody(c StaleCase, cv *cov) *evid.Violation {
 				return evid.Failf("%s: Item(%d) = (%q,%d) which is not one of the loaded pairs (or is enumerated twice)", when, i, clip(k), val)
 			}
 			seen[string([]byte(k))] = true
+			// probes cut out of the string Item returned: they start at (or inside) the stored key's own memory
+			for _, p := range []string{k[:len(k)/2], k[:len(k)-len(k)/3], k[len(k)/2:], k[:0]} {
+				want, wok := modelI[p]
+				if got, ok := sm.Get(p); ok != wok || got != want {
+					return evid.Failf("%s: Get of %q, a sub-string of the key %q that Item(%d) returned, = (%d,%v); a Go map holding the loaded pairs answers (%d,%v)", when, clip(p), clip(k), i, got, ok, want, wok)
+				}
+			}
 		}
 		return nil
 	}
@@ -144,7 +155,31 @@ func checkStaleBody(c StaleCase, cv *cov) *evid.Violation {
 			nmS[kc] = string([]byte(vs[i]))
 			nmI[kc] = vi[i]
 		}
+		if ld.Dup && len(kk) > 0 && !ld.HugeVal {
+			k2 := append(append([]string{}, kk...), string([]byte(kk[0])))
+			var err error
+			if c.Str2Str {
+				err = s2.LoadFromSlice(k2, append(append([]string{}, vs...), "dup-value"))
+			} else {
+				err = sm.LoadFromSlice(k2, append(append([]int{}, vi...), -7))
+			}
+			if err != nil {
+				sawDupRejected = true
+				if unknown {
+					continue
+				}
+				if v := verify(fmt.Sprintf("after load %d was rejected (%v) because a key was passed twice", li, err)); v != nil {
+					return v
+				}
+			} else {
+				unknown = true // accepted: what a map with a repeated key answers is not specified
+			}
+			continue
+		}
 		if ld.HugeVal && c.Str2Str {
+			if unknown {
+				continue
+			}
 			hm := hugeMapping()
 			if hm == nil {
 				cv.label("huge_mapping_unavailable")
@@ -175,6 +210,7 @@ func checkStaleBody(c StaleCase, cv *cov) *evid.Violation {
 			return evid.Failf("load %d of %d distinct keys failed: %v", li, len(kk), err)
 		}
 		modelS, modelI = nmS, nmI
+		unknown = false
 		if v := verify(fmt.Sprintf("after load %d of %d keys%s", li, len(kk), how)); v != nil {
 			return v
 		}
@@ -203,6 +239,7 @@ func checkStaleBody(c StaleCase, cv *cov) *evid.Violation {
 	cv.labelIf(usedStale, "stale_views_fed_back")
 	cv.labelIf(usedOld, "views_of_a_load_before_the_previous_one")
 	cv.labelIf(sawHuge, "failed_load_value_over_4GiB")
+	cv.labelIf(sawDupRejected, "load_with_repeated_key_rejected")
 	cv.labelIf(c.Str2Str, "str2str")
 	return nil
 }
@@ -231,6 +268,7 @@ func genStaleCase(t *rapid.T) StaleCase {
 				ld.StaleVals = rapid.SliceOfN(rapid.IntRange(0, 399), 0, 4).Draw(t, "staleVals")
 				ld.HugeVal = rapid.IntRange(0, 9).Draw(t, "hugeVal") == 0
 			}
+			ld.Dup = rapid.IntRange(0, 9).Draw(t, "dup") == 0
 		}
 		c.Loads = append(c.Loads, ld)
 	}
@@ -238,7 +276,7 @@ func genStaleCase(t *rapid.T) StaleCase {
 }
 
 func TestC07_Stale(t *testing.T) {
-	rec := evid.New("C07", "c07_stale", "rapid: 2..7 loads on one StrMap[int] or Str2Str of 0..40 fresh keys (keys of 4..100 bytes, values of 0..213 bytes) in which up to 6 keys and (Str2Str) up to 4 values are zero-copy strings the instance handed out after ANY earlier load (Item keys, Get values; up to 400 are kept), loaded with the content they have at the time of the call; (Str2Str) one load in ten is rejected because a value is longer than MaxUint32 (never-touched mapping; rejected by error or by the value store's documented panic) and nothing may have changed; oracle = Go map of copies made before the load; non-trivial = a handed-out string was fed back or a load was rejected")
+	rec := evid.New("C07", "c07_stale", "rapid: 2..7 loads on one StrMap[int] or Str2Str of 0..40 fresh keys (keys of 4..100 bytes, values of 0..213 bytes) in which up to 6 keys and (Str2Str) up to 4 values are zero-copy strings the instance handed out after ANY earlier load (Item keys, Get values; up to 400 are kept), loaded with the content they have at the time of the call; (Str2Str) one load in ten is rejected because a value is longer than MaxUint32 (never-touched mapping; rejected by error or by the value store's documented panic) and nothing may have changed; one load in ten passes its first key twice (if that is rejected, nothing may have changed; if it is accepted, nothing is asserted until the next load); after every load of a StrMap, sub-strings cut out of the keys Item returned are probed; oracle = Go map of copies made before the load; non-trivial = a handed-out string was fed back or a load was rejected")
 	defer rec.Flush()
 	runRapid(t, rec, "c07_stale", evid.Pick(4000, 30000), genStaleCase, checkStale)
 }
